@@ -91,7 +91,11 @@ theorem step_eval (ih : AllG I ld LS fuel) : ∀ s0 env n, GTr I s0 (eval ld (fu
         cases evalFinally ld fuel env fin (ghostFin s1 pos) <;> first | exact id | exact fun h _ => h
   | «for» ids e body what pos =>
     simp only [Ckl.eval]
-    exact GTr.wrapErrR (ihFor _ _ _ _ _ _ _) _ (fun s => obs_foldl (fun s x => s.remove env x) (fun _ _ => rfl) ids s)
+    exact GTr.wrapForR (ihFor _ _ _ _ _ _ _)
+      (fun s1 s => restoreVars env (hiddenVars s1 env ids) s)
+      (fun s1 s => restoreVars env (hiddenVars s1 env ids) (ids.foldl (fun s x => s.remove env x) s))
+      (fun s1 s => obs_restoreVars env _ s)
+      (fun s1 s => (obs_restoreVars env _ _).trans (obs_foldl (fun s x => s.remove env x) (fun _ _ => rfl) ids s))
   | lambda ps ds body pos =>
     simp only [Ckl.eval]
     exact ⟨fun s hs => I.keep hs rfl⟩
